@@ -24,8 +24,12 @@ from .common import *
 PROP = 'C04'
 
 ASSUMPTIONS = [
-    'host keys, CA keys, X.509 certificates and subject patterns are opaque values; == on the opaque sort is '
-    'SSHKey.__eq__ (equality of public_data) and hashing is consistent with it',
+    'host keys, CA keys, X.509 certificates and subject patterns are opaque values; == on the opaque sort is the '
+    'per-type key comparison (RSAKey / _DSAKey / _ECKey / _EdKey / _SKECDSAKey / _SKEd25519Key .__eq__ over the key '
+    'parameters; there is no SSHKey.__eq__).  Those six __eq__ are under contract (C16 Specs adopted here: equal only '
+    'if all public parameters are equal, never equal to a key of another type).  Trusted, not under contract: the '
+    'matching __hash__ methods are functions of the same parameters (set membership = hash then ==), '
+    'SSHCertificate.__eq__/__hash__ (public_data) for X.509 certificates',
     'inside _validate_host_key the decoders decode_ssh_certificate / decode_ssh_public_key are deterministic '
     'abstractions of the key blob (they may also raise ValueError for malformed key parameters: fail-safe, becomes '
     'HostKeyNotVerifiable).  That an OpenSSH certificate object exists only if its CA signature verified - over exactly '
@@ -33,7 +37,23 @@ ASSUMPTIONS = [
     'NOT assumed: SSHOpenSSHCertificate.construct and decode_ssh_certificate are under contract (the Specs written for '
     'C16, adopted here and discharged by ./check C04 too); what remains assumed is the primitive (unforgeability)',
     'the application callbacks validate_host_public_key / validate_host_ca_key are oracles (uninterpreted '
-    'predicates of their arguments) returning a bool',
+    'predicates of their arguments) returning a bool; the defaults in SSHClient are under contract (they answer False), '
+    'an application that overrides them takes the decision for unlisted keys upon itself',
+    'whether checking exists at all: SSHClientConnectionOptions.prepare (the statements storing known_hosts and '
+    'host_key_alias, region) is under contract - known_hosts is None only for an explicit None or '
+    '"UserKnownHostsFile none", otherwise the argument or all configured user files followed by all global files; '
+    'that the config holds string lists under the two options is the C18 contract of config.py (precondition here); the '
+    'copy from the options object into SSHClientConnection.__init__ (_known_hosts, _host_key_alias) is not under contract',
+    'read_known_hosts is under contract up to file access (read_file is a deterministic oracle): every file of the list '
+    'is loaded, in order, into the one returned object; that a later load() keeps the lines of earlier files (so '
+    '@revoked lines of any file survive) is the adopted C17 contract of load / _add_exact / _add_pattern',
+    'SSHConnection.connection_made: only the statements about peername are analysed (region): _peer_addr/_peer_port are '
+    'the first two components of transport.get_extra_info("peername")',
+    'GSS key exchange (gss-* kex, kex_dh._KexGSSBase) is an exception to the property BY DESIGN: the server is '
+    'authenticated by the GSS MIC, validate_server_host_key is never called and the host key the server sent is '
+    'stored unchecked; C03 declares GSS out of scope as well.  The statement proved here is about the non-GSS '
+    'exchanges, whose two client call sites of validate_server_host_key are kex_dh _process_reply and kex_rsa '
+    '_process_done (both under contract in C03)',
     'X.509 certificate chains are outside the property text: _validate_x509_host_certificate_chain is an assumed '
     'contract (returns a key or raises ValueError); only its call site is checked',
     '"now" is a ghost input (ghost_now): the one reading of time.time() made by SSHOpenSSHCertificate.validate',
@@ -808,6 +828,254 @@ def _mk_mkhf(kind, typ):
 match_known_hosts_obj = _mk_mkhf('obj', 'obj:SSHKnownHosts')
 match_known_hosts_file = _mk_mkhf('file', 'str')
 match_known_hosts_bytes = _mk_mkhf('bytes', 'bytes')
+# list of file names (what SSHClientConnectionOptions.prepare builds from the config).  An EMPTY list is not this form:
+# it is read as "preloaded lists of keys" with nothing in them (nothing trusted: fail-safe), outside this Spec
+match_known_hosts_files = _mk_mkhf('files', 'seq[str]')
+match_known_hosts_files.requires = lambda c: z3.Length(c.arg('known_hosts')) > 0
+
+
+# ---- known_hosts.read_known_hosts : every file of the list is loaded, in order, into the one object --------------
+# (user file(s) followed by global file(s): a line - e.g. an @revoked line - of ANY file reaches the matcher; that
+#  load() keeps what earlier calls stored is the C17 contract of load / _add_exact / _add_pattern adopted below)
+file_text = z3.Function('file_text', StrS, StrS)                       # read_file(name, 'r') when it succeeds
+texts_of = z3.Function('texts_of_files', z3.SeqSort(StrS), IntS, z3.SeqSort(StrS))   # recursive over n: instances
+
+
+def texts_instances(files, i0):
+    return [texts_of(files, z3.IntVal(0)) == z3.Empty(z3.SeqSort(StrS)),
+            z3.Implies(z3.And(0 <= i0, i0 < z3.Length(files)),
+                       texts_of(files, i0 + 1) == z3.Concat(texts_of(files, i0), z3.Unit(file_text(files[i0]))))]
+
+
+def new_kh_stub(cx):
+    if cx.args or cx.kwargs:
+        raise Unsupported('SSHKnownHosts(data) inside read_known_hosts')
+    ref = cx.ex.new_object(cx.st, 'SSHKnownHosts', 'fresh_known_hosts')
+    return [Out(ret=ref, assume=[z3.Length(cx.ex.get_field(cx.st, ref, 'ghost_loaded').z) == 0])]
+
+
+new_kh_stub.modifies = ()
+
+
+def read_file_stub(cx):
+    name = cx.args[0].z
+    t = cx.fresh('str', 'text')
+    return [Out(ret=t, assume=[t.z == file_text(name)]), Out(exc=VExc('OSError'))]
+
+
+read_file_stub.modifies = ()
+
+
+def load_log_stub(cx):
+    """known_hosts.load(text): ghost log of the texts loaded into this object, in order (or a parse error)"""
+    cur = cx.ex.get_field(cx.st, cx.recv, 'ghost_loaded')
+    nv = VSeq(z3.Concat(cur.z, z3.Unit(cx.args[0].z)), 'str')
+    return [Out(osets=[(cx.recv, 'ghost_loaded', nv)]), Out(exc=VExc('ValueError'))]
+
+
+load_log_stub.modifies = ()
+RKH_CLASSES = {'SSHKnownHosts': {'ghost_loaded': 'seq[str]'}}
+
+
+def rkh_loaded(c, ref):
+    return c.ex.get_field(c.new_state, ref, 'ghost_loaded').z
+
+
+def rkh_loop_inv(c):
+    it, i = c.extra['iter'].z, c.extra['i']
+    return rkh_loaded(c, c.localv('known_hosts')) == texts_of(it, i)
+
+
+def _mk_rkh(kind, typ):
+    def post(c):
+        files = c.arg('filelist')
+        if kind == 'one':
+            want = z3.Unit(file_text(files))
+        else:
+            want = texts_of(files, z3.Length(files))
+        return rkh_loaded(c, c.result_v) == want
+    sp = Spec(
+        PROP, 'known_hosts', 'read_known_hosts', params=dict(filelist=typ), classes=RKH_CLASSES,
+        stubs={'SSHKnownHosts': new_kh_stub, 'read_file': read_file_stub, 'known_hosts.load': load_log_stub},
+        loops={1: LoopSpec(header='for filename in filelist', invariant=rkh_loop_inv,
+                           lemmas=lambda c: texts_instances(c.extra['iter'].z, c.extra['i0']))} if kind == 'list' else {},
+        lemmas=(lambda c: texts_instances(c.arg('filelist'), z3.Length(c.arg('filelist')))) if kind == 'list' else None,
+        ensures=[('every-file-of-the-list-is-loaded-once-in-order-into-the-returned-object', post)],
+        raises={'OSError': True, 'ValueError': True},
+        local_types={'known_hosts': 'obj:SSHKnownHosts'},
+        cases=[(kind, {})], returns='obj:SSHKnownHosts')
+    if kind == 'list':
+        # the object behind the local is changed by load() in the body: the loop head must not remember its log
+        sp.loops[1].havoc_locals = ['known_hosts']
+    sp.no_replay = True
+    return sp
+
+
+read_known_hosts_one = _mk_rkh('one', 'str')
+read_known_hosts_list = _mk_rkh('list', 'seq[str]')
+
+
+# ---- SSHClientConnectionOptions.prepare : is there host key checking at all? -------------------------------------
+# Documented (SSHClientConnectionOptions, known_hosts): not given -> the files named by the config (UserKnownHostsFile
+# followed by GlobalKnownHostsFile; none configured -> an empty list, which _connection_made turns into the default
+# ~/.ssh/known_hosts); checking is off only for an explicit known_hosts=None or "UserKnownHostsFile none".
+PY = pyobj_sort()
+STRL = z3.SeqSort(StrS)
+
+
+def _prepare_region(fn):
+    import ast
+    out = [st_ for st_ in fn.body
+           if any(isinstance(n, ast.Attribute) and isinstance(n.ctx, ast.Store) and n.attr in ('known_hosts', 'host_key_alias')
+                  for n in ast.walk(st_))]
+    if not out:
+        raise Unsupported('prepare: no statement storing known_hosts / host_key_alias found')
+    return out
+
+
+def _prepare_params(typ):
+    from pyvc import extract
+    fn = extract.get_module('connection').get_function('SSHClientConnectionOptions.prepare')
+    names = [a.arg for a in fn.args.args][1:] + [a.arg for a in fn.args.kwonlyargs]
+    return dict({n: 'any' for n in names}, config='obj:Config', known_hosts=typ, host_key_alias='pyobj')
+
+
+def cfg(c, key):
+    """(configured?, value) of a config option"""
+    m = c.oldv('_options', ref=c.argv('config'))
+    k = z3.StringVal(key)
+    return z3.Select(m.dom, k), z3.Select(m.val, k)
+
+
+def cfg_wf(c):
+    """C18 (config.py option table): the two known-hosts options are string lists, HostKeyAlias a string"""
+    conj = []
+    for key, test in (('UserKnownHostsFile', PY.is_py_strlist), ('GlobalKnownHostsFile', PY.is_py_strlist),
+                      ('HostKeyAlias', PY.is_py_str)):
+        has, v = cfg(c, key)
+        conj.append(z3.Implies(has, test(v)))
+    return z3.And(conj)
+
+
+def pyz(c, v):
+    """a stored value as a pyobj term (None, (), str, list of str ...)"""
+    v = c.ex.deref(c.new_state, v)
+    if isinstance(v, VList):
+        return PY.py_strlist(to_z3(v, 'seq[str]'))
+    return py_inject(v)
+
+
+def prepare_known_hosts_post(kind):
+    def post(c):
+        new = c.newv('known_hosts')
+        if kind != 'pyobj':
+            # a bytes blob / SSHKnownHosts object / callable is never the "not given" marker: stored as given
+            return c.eq(new, c.argv('known_hosts'))
+        arg = c.arg('known_hosts')
+        given = arg != PY.py_tuple0
+        uh, uv = cfg(c, 'UserKnownHostsFile')
+        gh, gv = cfg(c, 'GlobalKnownHostsFile')
+        user = z3.If(uh, PY.py_l(uv), z3.Empty(STRL))
+        glob = z3.If(gh, PY.py_l(gv), z3.Empty(STRL))
+        off = z3.And(uh, z3.Length(PY.py_l(uv)) == 0)            # "UserKnownHostsFile none"
+        nz = pyz(c, new)
+        return z3.And(
+            z3.Implies(given, nz == arg),
+            # checking exists unless explicitly disabled
+            (nz == PY.py_none) == z3.Or(arg == PY.py_none, z3.And(z3.Not(given), off)),
+            # not given, not disabled: every configured user file, then every configured global file
+            z3.Implies(z3.And(z3.Not(given), z3.Not(off)), nz == PY.py_strlist(z3.Concat(user, glob))))
+    return post
+
+
+def prepare_alias_post(c):
+    arg = c.arg('host_key_alias')
+    has, v = cfg(c, 'HostKeyAlias')
+    nz = pyz(c, c.newv('host_key_alias'))
+    return z3.And(z3.Implies(arg != PY.py_tuple0, nz == arg),
+                  z3.Implies(arg == PY.py_tuple0, nz == z3.If(has, v, PY.py_none)))
+
+
+def _mk_prepare(kind, typ, classes=None):
+    sp = Spec(
+        PROP, 'connection', 'SSHClientConnectionOptions.prepare', self_class='Opts',
+        params=_prepare_params(typ),
+        classes=dict({'Opts': {'known_hosts': 'pyobj', 'host_key_alias': 'pyobj'},
+                      'Config': {'_options': 'dict[str,pyobj]'}}, **(classes or {})),
+        region=_prepare_region,
+        inline={'config.get': ('config', 'SSHConfig.get')},
+        requires=cfg_wf,
+        ensures=[('checking-is-off-only-when-explicitly-disabled-else-all-configured-files', prepare_known_hosts_post(kind)),
+                 ('host-key-alias-is-the-argument-else-the-config-value', prepare_alias_post)],
+        cases=[(kind, {})])
+    sp.no_replay = True
+    sp.runtime_class = 'SSHClientConnectionOptions'
+    return sp
+
+
+prepare_pyobj = _mk_prepare('pyobj', 'pyobj')
+prepare_bytes = _mk_prepare('bytes', 'bytes')
+prepare_object = _mk_prepare('object', 'obj:SSHKnownHosts', {'SSHKnownHosts': {}})
+
+
+# ---- the default application callbacks: an application that overrides nothing accepts no unlisted key -------------
+def _returns_false(c):
+    return z3.And(z3.BoolVal(isinstance(c.result_v, VBool)), z3.Not(c.result))
+
+
+default_cb_key = Spec(
+    PROP, 'client', 'SSHClient.validate_host_public_key', self_class='SSHClient',
+    params=dict(host='str', addr='str', port='int', key=KEY), classes={'SSHClient': {}},
+    ensures=[('default-answer-is-no', _returns_false)], modifies=[])
+default_cb_ca = Spec(
+    PROP, 'client', 'SSHClient.validate_host_ca_key', self_class='SSHClient',
+    params=dict(host='str', addr='str', port='int', key=KEY), classes={'SSHClient': {}},
+    ensures=[('default-answer-is-no', _returns_false)], modifies=[])
+
+
+# ---- SSHConnection.connection_made : the address half of "host, address and port" is the PEER's address ---------
+def _peername_region(fn):
+    import ast
+    out = [st_ for st_ in fn.body if any(isinstance(n, ast.Name) and n.id == 'peername' for n in ast.walk(st_))]
+    if not out:
+        raise Unsupported('connection_made: no statement about peername found')
+    return out
+
+
+def extra_info_stub(cx):
+    """transport.get_extra_info(name): None or the socket address tuple (addr, port[, flow, scope]) for that name"""
+    name = concrete_str(cx.args[0])
+    if name is None:
+        raise Unsupported('get_extra_info with a symbolic name')
+    v = cx.fresh('opt[tuple[str,int]]', 'info_' + name)
+    return [Out(ret=v, event=('extra_info', (VStr(name), v)))]
+
+
+extra_info_stub.modifies = ()
+
+
+def peer_addr_post(c):
+    evs = [e for e in c.events('extra_info') if concrete_str(e[1][0]) == 'peername']
+    if len(evs) != 1:
+        return z3.BoolVal(False)
+    info = evs[0][1][1]
+    known = c.truthy(info)
+    addr, port = info.val.items
+    return z3.And(z3.Implies(known, z3.And(c.new('_peer_addr') == addr.z, c.new('_peer_port') == port.z)),
+                  z3.Implies(z3.Not(known), z3.And(c.new('_peer_addr') == c.old('_peer_addr'),
+                                                   c.new('_peer_port') == c.old('_peer_port'))))
+
+
+connection_made_peer = Spec(
+    PROP, 'connection', 'SSHConnection.connection_made', self_class='SSHConnection',
+    params=dict(transport='obj:Transport'),
+    classes={'SSHConnection': {'_peer_addr': 'str', '_peer_port': 'int', '_local_addr': 'str', '_local_port': 'int'},
+             'Transport': {}},
+    region=_peername_region,
+    stubs={'transport.get_extra_info': extra_info_stub},
+    ensures=[('peer-address-and-port-are-the-transport-peername', peer_addr_post)],
+    modifies=['_peer_addr', '_peer_port'])
+connection_made_peer.no_replay = True
 
 
 # ---- producers of the facts the decisions rely on, adopted from the sidecars that own them ----------------------
@@ -832,8 +1100,9 @@ def _adopt(modname, want):
     return mod, out
 
 
+# C16: certificate decoding (CA signature check) and the per-type key equality that `key in trusted / revoked` rests on
 _c16, ADOPTED_C16 = _adopt('contracts.c16', lambda sp: sp.qualname in (
-    'SSHOpenSSHCertificate.construct', 'decode_ssh_certificate'))
+    'SSHOpenSSHCertificate.construct', 'decode_ssh_certificate') or sp.qualname.endswith('.__eq__'))
 _c17, ADOPTED_C17 = _adopt('contracts.c17', lambda sp: (
     sp.module == 'pattern' or (sp.module == 'known_hosts' and sp.qualname not in (
         'SSHKnownHosts._match', 'SSHKnownHosts.match'))))
@@ -889,20 +1158,26 @@ def extra_checks(tier, seed):
     stray = []
     for path in sorted(glob.glob(os.path.join(extract.PKG, '*.py'))):
         tree = ast.parse(open(path, encoding='utf-8').read())
-        for cls in [n for n in ast.walk(tree) if isinstance(n, ast.ClassDef)]:
-            for fn in [n for n in cls.body if isinstance(n, (ast.FunctionDef, ast.AsyncFunctionDef))]:
-                where = (cls.name, fn.name)
-                for n in ast.walk(fn):
-                    tg = n.targets if isinstance(n, (ast.Assign, ast.Delete)) else \
-                        [n.target] if isinstance(n, (ast.AugAssign, ast.AnnAssign)) else []
-                    attrs = [a for t in tg for a in ast.walk(t) if isinstance(a, ast.Attribute)]
-                    if isinstance(n, ast.Call) and isinstance(n.func, ast.Attribute) and n.func.attr in MUTATORS:
-                        attrs += [a for a in ast.walk(n.func.value) if isinstance(a, ast.Attribute)]
-                    for a in attrs:
-                        if (a.attr in TRUST_FIELDS and where not in TRUST_WRITERS) or \
-                                (a.attr in KH_STORE and where not in KH_WRITERS) or \
-                                (a.attr in SELECT_FIELDS and cls.name in SELECT_CLASSES and where not in SELECT_WRITERS):
-                            stray.append(f'{os.path.basename(path)}:{n.lineno} {cls.name}.{fn.name} writes {a.attr}')
+        # every function of the package: methods (owner = class) and module-level functions (owner = '<module>');
+        # nested functions are walked with their enclosing function.  setattr()/__dict__ writes stay invisible.
+        units = [(cls.name, fn) for cls in ast.walk(tree) if isinstance(cls, ast.ClassDef)
+                 for fn in cls.body if isinstance(fn, (ast.FunctionDef, ast.AsyncFunctionDef))]
+        units += [('<module>', fn) for fn in tree.body if isinstance(fn, (ast.FunctionDef, ast.AsyncFunctionDef))]
+        for owner, fn in units:
+            where = (owner, fn.name)
+            for n in ast.walk(fn):
+                tg = n.targets if isinstance(n, (ast.Assign, ast.Delete)) else \
+                    [n.target] if isinstance(n, (ast.AugAssign, ast.AnnAssign)) else []
+                attrs = [a for t in tg for a in ast.walk(t) if isinstance(a, ast.Attribute)]
+                if isinstance(n, ast.Call) and isinstance(n.func, ast.Attribute) and n.func.attr in MUTATORS:
+                    attrs += [a for a in ast.walk(n.func.value) if isinstance(a, ast.Attribute)]
+                for a in attrs:
+                    on_self = isinstance(a.value, ast.Name) and a.value.id == 'self'
+                    select_hit = a.attr in SELECT_FIELDS and where not in SELECT_WRITERS and \
+                        (owner in SELECT_CLASSES or not on_self)
+                    if (a.attr in TRUST_FIELDS and where not in TRUST_WRITERS) or \
+                            (a.attr in KH_STORE and where not in KH_WRITERS) or select_hit:
+                        stray.append(f'{os.path.basename(path)}:{n.lineno} {owner}.{fn.name} writes {a.attr}')
     lemmas = [{'name': f'{PROP}.scan#frame(writers-of-trust-sets-and-known-hosts-store-are-the-listed-ones)',
                'verdict': 'proved' if not stray else 'refuted', 'detail': stray[:10], 'backend': 'AST scan',
                'replayed': True}]
